@@ -15,6 +15,7 @@ use crate::newline::BytesNewline;
 use crate::newline::SplitLinesByNewline;
 use crate::newline::StringNewline;
 use crate::outcome::Outcome;
+use crate::output::output_line_expectation;
 use crate::output::ExitStatus;
 use crate::testcase::TestCaseError;
 
@@ -74,19 +75,10 @@ impl OutcomeTestGenerator for Outcome {
                             }
                             DiffLine::UnexpectedLines { lines } => {
                                 for (_, line) in lines {
-                                    let expectation = self
-                                        .escaping
-                                        .escaped_expectation((&line[..]).trim_newlines());
-                                    // escaped expectations ignore the tailing newline already
-                                    let suffix = if line.ends_with(b"\n")
-                                        || expectation.ends_with(" (escaped)")
-                                    {
-                                        ""
-                                    } else {
-                                        " (no-eol)"
-                                    };
-                                    let line = formatln!("{}{}", expectation, suffix);
-                                    generated.push_str(&line)
+                                    generated.push_str(&formatln!(
+                                        "{}",
+                                        output_line_expectation(&self.escaping, line)
+                                    ))
                                 }
                             }
                             _ => continue,
